@@ -384,7 +384,7 @@ func runC01(c *Ctx) {
 	r := c.Res
 	r.Rule = "program with >=1 map call or disabled binding, >=2 jobs, run to completion; distinct by (program, order in which jobs finished)"
 	start := time.Now()
-	nGen, nSched := 218, 2
+	nGen, nSched := 200, 2
 	if c.Thorough {
 		nGen, nSched = 3000, 3
 	}
@@ -417,7 +417,7 @@ func runC01(c *Ctx) {
 	}
 	// plain programs (no map call, no `disabled`): the fragment on which the two-phase
 	// resolver model is PROVED to refine den; run under Tier A for the run-time tie
-	nPlain, nStaticOnly := 36, 400
+	nPlain, nStaticOnly := 30, 300
 	if c.Thorough {
 		nPlain, nStaticOnly = 150, 4000
 	}
